@@ -62,6 +62,12 @@ def cases(tier, seed):
                     out.append(dict(base, mask={"kind": "none"}, threads=2, chunks=[2, 2]))
                     if tier == "thorough" and len(comp) == 2:
                         out.append(dict(base, mask={"kind": "none"}, threads=2, chunks=comp))
+    # plain int64 sums over an alphabet that contains the integer null sentinel: every block split must poison exactly like the single pass
+    for T in threads:
+        for mk in ({"kind": "none"}, {"kind": "bool_sym"}) if T == 1 else ({"kind": "none"}, {"kind": "fancy", "L": 3}):
+            out.append({"func": "sum", "dtype": "int64", "N": N, "G": G, "mask": mk, "threads": T, "int_sentinel": True})
+    # (not with a chunked VALUES list: group_sum picks the null-skipping reducer for anything that is not an ndarray, so the sentinel is
+    # skipped there and poisons here - a container-dependent dispatch outside this property; see DESIGN 0, false alarms)
     if tier == "thorough":
         # the cheapest kernels once more at N=8
         for func in ("count", "sum", "max", "first", "last"):
